@@ -73,6 +73,21 @@ class KindInterp(DictInterp):
                     return self.ev(self.consts[d_])
                 if d_.split(".")[-1][:1].isupper() and d_ not in self.records and d_.split(".")[-1] not in ("True", "False", "None"):
                     return ClassTok(d_)
+        if isinstance(e, ast.Attribute) and not ast.unparse(e) in self.env and isinstance(e.value, ast.Call):
+            # the receiver is a call: evaluate it exactly once (it may have effects on the abstract state)
+            v = self.ev(e.value)
+            if isinstance(v, AObj):
+                if e.attr in v.attrs:
+                    return v.attrs[e.attr]
+                raise Raised("AttributeError %s.%s" % (v.name, e.attr))
+            if isinstance(v, tuple) and hasattr(v, "_fields") and e.attr in v._fields:
+                return getattr(v, e.attr)
+            tmp = "$recv%d" % id(e)
+            self.env[tmp] = v
+            try:
+                return self.ev(ast.Attribute(value=ast.Name(id=tmp, ctx=ast.Load()), attr=e.attr, ctx=ast.Load()))
+            finally:
+                self.env.pop(tmp, None)
         if isinstance(e, ast.Attribute) and not ast.unparse(e) in self.env:
             try:
                 v = self.ev(e.value)
